@@ -314,6 +314,9 @@ def gen_op(rng):
         (4, lambda: "scandir %s %d" % (any_path(rng), rng.choice([0, 0, 1, 2, 9]))),
         (4, lambda: "readdir %s %d" % (any_path(rng), rng.choice([16, 16, 1, 2, 0]))),
         (3, lambda: "copyfile %s %s %d" % (any_path(rng), any_path(rng), rng.choice([0, 0, 1, 2, 8]))),
+        (2, lambda: "copyfile %s %s %d" % tuple(rng.sample([rng.choice(FILES), "xdev/" + rng.choice(["t.txt", "n1", "n2", "nope/x"])], 2)
+                                                + [rng.choice([0, 0, 1, 2, 4, 3])])),
+        (2, lambda: "open %s xdev/%s %d 644" % (s, rng.choice(["t.txt", "n1", "n2"]), rng.choice([0, 2, 66, 577, 578]))),
         (3, lambda: "sendfile %s s%d %d %d" % (s, rng.choice([0, 1, 2]), rng.choice([0, 3, 5000]), rng.choice([0, 10, 700, 100000]))),
         (1, lambda: "statfs %s" % any_path(rng)),
         (1, lambda: "chown %s %d %d" % (any_path(rng), rng.choice([0, 1]), rng.choice([0, 2]))),
@@ -731,6 +734,8 @@ def main():
             kv, ring = m.group(1), int(m.group(2))
             chk.cov["kernel_version_hex"] = hex(int(kv))
             chk.cov["sqpoll_ring_available"] = bool(ring)
+            chk.cov["second_file_system"] = ("/dev/shm (tmpfs), st_dev differs from the scratch tree" if "xdev=1" in envs[0]
+                                             else "SKIPPED: /dev/shm missing, not writable or on the same device; xdev/ is a plain directory")
             parsed = [l if l.startswith("crash") else parse_routes_line(l) for l in outs]
             full = {}
             proj, minput = [], []
